@@ -56,6 +56,56 @@ def nested_texts_of_field(node):
     return acc
 
 
+def private_texts_of_field(node):
+    """Texts of private property values (at any depth) inside the nested statements of a component."""
+    acc = []
+
+    def from_stmt(st, inside_private):
+        for f, n in st:
+            for lf in leaves(n):
+                e = lf[6]
+                if inside_private:
+                    sh = []
+                    shared_texts(n, sh)
+                    acc.extend(sh)
+                    if isinstance(e, bytes) and e:
+                        acc.append(e)
+                if isinstance(e, tuple) and e[0] == 'T':
+                    from_stmt(e[1], inside_private)
+                elif isinstance(e, tuple) and e[0] == 'NS':
+                    for x in e[1]:
+                        for y in top_statement_nodes(x):
+                            from_stmt(y[6][1], inside_private)
+                for pv in lf[7]:
+                    pe = pv[6]
+                    if isinstance(pe, bytes) and pe:
+                        acc.append(pe)
+                    elif isinstance(pe, tuple) and pe[0] == 'T':
+                        from_stmt(pe[1], True)
+    for lf in leaves(node):
+        e = lf[6]
+        if isinstance(e, tuple) and e[0] == 'T':
+            from_stmt(e[1], False)
+        elif isinstance(e, tuple) and e[0] == 'NS':
+            for x in e[1]:
+                for y in top_statement_nodes(x):
+                    from_stmt(y[6][1], False)
+    return acc
+
+
+@matcher("nested_statement_with_private_property")
+def _m_f28(case, k):
+    try:
+        root = rnode(case["tree"])
+    except Exception:
+        return False
+    for n in top_statement_nodes(root):
+        for f, node in n[6][1]:
+            if f in COMPLEX_FIELDS and private_texts_of_field(node):
+                return True
+    return False
+
+
 def compare(core, ext, V, stats):
     if not core.get("tabs") or not ext.get("tabs"):
         return
@@ -161,6 +211,11 @@ def compare(core, ext, V, stats):
                     cell = a.get(col, b"")
                     stats["core_cells"] += 1
                     miss = [t for t in texts if adjust_py(t, False) not in cell]
+                    if miss and all(t in private_texts_of_field(node) for t in miss):
+                        # known finding F28: the flat text of a nested statement leaves out the values of private properties
+                        V.violation("core-ext:core-cell-lacks-nested-private-value", case, observed={"row": a.get(SID), "column": col, "cell": cell[:300], "missing": repr(miss[:3])},
+                                    what="IG Core reference cell does not contain the private property values of a nested statement")
+                        break
                     if miss:
                         V.violation("core-ext:core-cell-lacks-value", case, observed={"row": a.get(SID), "column": col, "cell": cell[:300], "missing": repr(miss[:3])},
                                     what="IG Core reference cell does not contain every value of the nested statements")
